@@ -85,17 +85,19 @@ def findByIdL (id : Nat) : List Xml → Option Xml
 end
 
 mutual
-/-- first `displaced` element (document order, the element itself included) with this marker/name -/
-def firstDisplaced (marker : Option String) (name : String) : Xml → Option Xml
+/-- first `displaced` element (document order, the element itself included) with this marker/name that does not
+contain the reference `rid` (fix 13653fd: a reference cannot be moved into content it is itself part of) -/
+def firstDisplaced (rid : Nat) (marker : Option String) (name : String) : Xml → Option Xml
   | .text _ => none
   | .elem t a ks =>
-    if t = "displaced" ∧ a.lookup "marker" = marker ∧ a.lookup "name" = some name then some (.elem t a ks)
-    else firstDisplacedL marker name ks
-def firstDisplacedL (marker : Option String) (name : String) : List Xml → Option Xml
+    if t = "displaced" ∧ a.lookup "marker" = marker ∧ a.lookup "name" = some name ∧ containsIdL rid ks = false
+    then some (.elem t a ks)
+    else firstDisplacedL rid marker name ks
+def firstDisplacedL (rid : Nat) (marker : Option String) (name : String) : List Xml → Option Xml
   | [] => none
-  | k :: ks => match firstDisplaced marker name k with
+  | k :: ks => match firstDisplaced rid marker name k with
     | some x => some x
-    | none => firstDisplacedL marker name ks
+    | none => firstDisplacedL rid marker name ks
 end
 
 mutual
@@ -136,7 +138,7 @@ def resolveRef (root : Xml) (rid : Nat) : Except Err Xml :=
     let name := (ref.attrs.lookup "displaced").getD ""
     let marker := ref.attrs.lookup "marker"
     let root1 := modifyById rid (popAttr "displaced") root
-    let found := ancestors.findSome? (fun p => firstDisplaced marker name p)
+    let found := ancestors.findSome? (fun p => firstDisplaced rid marker name p)
     match found with
     | some content =>
       -- moving an ancestor (or the reference itself) into the reference is an lxml error
